@@ -7,6 +7,7 @@ import (
 	"os"
 	"sort"
 	"strings"
+	"testing/synctest"
 	"time"
 )
 
@@ -106,7 +107,7 @@ type xviol struct {
 // exploreDFS explores one scenario. run executes the scenario once under the given xrun and returns
 // the violations it saw. bound is the deviation bound; maxExec and deadline cap the search (a capped
 // search reports Capped=true — never "exhaustive").
-func exploreDFS(bound int, maxExec int, deadline time.Time, only []string, beat func(), run func(r *xrun) []Violation) (xstats, []xviol) {
+func exploreDFS(bound int, maxExec int, deadline time.Time, only []string, beat func(), part, parts int, run func(r *xrun) []Violation) (xstats, []xviol) {
 	var st xstats
 	var viols []xviol
 	seenKeys := map[string]bool{}
@@ -128,6 +129,7 @@ func exploreDFS(bound int, maxExec int, deadline time.Time, only []string, beat 
 		seen := map[string]bool{}
 		stack := [][]string{nil}
 		complete := true
+		rootChild := 0
 		for len(stack) > 0 {
 			if st.Executions >= maxExec || time.Now().After(deadline) {
 				st.Capped = true
@@ -177,6 +179,13 @@ func exploreDFS(bound int, maxExec int, deadline time.Time, only []string, beat 
 				if i >= len(prefix) {
 					if devs+1 <= b {
 						for alt := len(r.points[i].opts) - 1; alt >= 1; alt-- {
+							if len(prefix) == 0 && parts > 1 {
+								// the first-level subtrees of a scenario are dealt round-robin to its parts
+								rootChild++
+								if rootChild%parts != part {
+									continue
+								}
+							}
 							np := make([]string, 0, i+1)
 							for j := 0; j < i; j++ {
 								np = append(np, r.points[j].opts[r.points[j].chosen])
@@ -230,7 +239,12 @@ type settleOpts struct {
 	ctx         string // part of the state key: which scenario phase we are in
 	monitor     func() // invariant check at every quiescent point
 	noHold      bool
-	bag         bool // any in-flight message of a link may be delivered (not only the head batch)
+	bag         bool                          // any in-flight message of a link may be delivered (not only the head batch)
+	faults      bool                          // offer dup / drop of in-flight messages and replay of delivered ones
+	noTick      bool                          // do not offer an early timer tick
+	pre, post   func(link string, msg []byte) // called around every delivery
+	history     map[string][][]byte           // delivered messages per link (for replay), kept by the caller across phases
+	maxIter     int
 }
 
 // deliverable returns, per eligible link, the canonical labels of the messages that may be delivered next.
@@ -299,7 +313,47 @@ func (m *mesh) stateKey(held map[string]bool, sinceTick map[string][]string, ctx
 func (m *mesh) exploreSettle(r *xrun, o settleOpts) string {
 	held := map[string]bool{}
 	sinceTick := map[string][]string{}
-	for iter := 0; iter < 600; iter++ {
+	maxIter := o.maxIter
+	if maxIter == 0 {
+		maxIter = 600
+	}
+	deliver := func(k string, data []byte, lbl string) {
+		dst := strings.Split(k, ">")[1]
+		sinceTick[dst] = append(sinceTick[dst], lbl)
+		s := m.sess[k]
+		if s == nil || m.isSilent(s.from, s.to) || s.isClosed() {
+			m.step++
+			r.steps++
+			return // black-holed: nothing reaches the receiver
+		}
+		if o.pre != nil {
+			o.pre(k, data)
+		}
+		m.step++
+		if s != nil && !m.isSilent(s.from, s.to) && !s.isClosed() {
+			if m.scripted[s.to] {
+				if m.recvd == nil {
+					m.recvd = map[string][][]byte{}
+				}
+				m.recvd[s.to] = append(m.recvd[s.to], data)
+			} else {
+				s.inject(data)
+				synctest.Wait()
+			}
+		}
+		r.steps++
+		if o.history != nil {
+			h := append(o.history[k], data)
+			if len(h) > 3 {
+				h = h[len(h)-3:]
+			}
+			o.history[k] = h
+		}
+		if o.post != nil {
+			o.post(k, data)
+		}
+	}
+	for iter := 0; iter < maxIter; iter++ {
 		links, labels, index := m.deliverable(held, o.bag)
 		if len(links) == 0 {
 			anyHeld := false
@@ -332,7 +386,21 @@ func (m *mesh) exploreSettle(r *xrun, o settleOpts) string {
 			}
 			continue
 		}
-		if r.visit(m.stateKey(held, sinceTick, o.ctx)) {
+		ctx := o.ctx
+		if o.history != nil {
+			hk := make([]string, 0, len(o.history))
+			for k := range o.history {
+				hk = append(hk, k)
+			}
+			sort.Strings(hk)
+			for _, k := range hk {
+				ctx += "|" + k
+				for _, d := range o.history[k] {
+					ctx += ";" + m.canonMsg(d)
+				}
+			}
+		}
+		if r.visit(m.stateKey(held, sinceTick, ctx)) {
 			return "pruned"
 		}
 		var opts []string
@@ -344,7 +412,34 @@ func (m *mesh) exploreSettle(r *xrun, o settleOpts) string {
 				opts = append(opts, "hold "+k)
 			}
 		}
-		opts = append(opts, "tick")
+		if o.faults {
+			for _, k := range links {
+				for _, l := range labels[k] {
+					opts = append(opts, "dup "+l, "drop "+l)
+				}
+			}
+			hk := make([]string, 0, len(o.history))
+			for k := range o.history {
+				hk = append(hk, k)
+			}
+			sort.Strings(hk)
+			for _, k := range hk {
+				if m.sess[k] == nil || m.sess[k].isClosed() {
+					continue
+				}
+				seenR := map[string]bool{}
+				for i, d := range o.history[k] {
+					l := fmt.Sprintf("replay %d %s %s", i, k, m.canonMsg(d))
+					if !seenR[l] {
+						seenR[l] = true
+						opts = append(opts, l)
+					}
+				}
+			}
+		}
+		if !o.noTick {
+			opts = append(opts, "tick")
+		}
 		if o.canFireNext {
 			opts = append(opts, "next-event")
 		}
@@ -358,17 +453,35 @@ func (m *mesh) exploreSettle(r *xrun, o settleOpts) string {
 			return "next"
 		case strings.HasPrefix(c, "hold "):
 			held[strings.TrimPrefix(c, "hold ")] = true
-		default:
-			f := strings.SplitN(c, " ", 3)
-			k := f[1]
-			dst := strings.Split(k, ">")[1]
-			sinceTick[dst] = append(sinceTick[dst], c)
-			m.deliverAt(k, index[c])
+		case strings.HasPrefix(c, "dup d "):
+			l := strings.TrimPrefix(c, "dup ")
+			k := strings.SplitN(l, " ", 3)[1]
+			s := m.sess[k]
+			s.mu.Lock()
+			data := append([]byte(nil), s.outbox[index[l]].data...)
+			s.mu.Unlock()
+			deliver(k, data, c)
+		case strings.HasPrefix(c, "drop d "):
+			l := strings.TrimPrefix(c, "drop ")
+			k := strings.SplitN(l, " ", 3)[1]
+			m.sess[k].take(index[l])
 			r.steps++
+		case strings.HasPrefix(c, "replay "):
+			f := strings.SplitN(c, " ", 4)
+			var i int
+			fmt.Sscan(f[1], &i)
+			k := f[2]
+			if i < len(o.history[k]) {
+				deliver(k, append([]byte(nil), o.history[k][i]...), c)
+			}
+		default:
+			k := strings.SplitN(c, " ", 3)[1]
+			data := m.sess[k].take(index[c])
+			deliver(k, data, c)
 		}
 		if o.monitor != nil {
 			o.monitor()
 		}
 	}
-	return ""
+	return "limit"
 }
